@@ -597,7 +597,11 @@ class PyGen:
         cs = self.cs
         if cs.bool(40):
             self.feat('one_line_suite')
-            return [('line', header + self.simple_line())]
+            self._in_one_line_suite = True
+            try:
+                return [('line', header + self.simple_line())]
+            finally:
+                self._in_one_line_suite = False
         return [('line', header), self.block(depth)]
 
     def simple_line(self):
@@ -607,6 +611,19 @@ class PyGen:
             self.feat('semicolon')
         if self.cs.bool(10):
             ts.append(tk(';'))
+        # open finding C01-F2: a logical line that starts with `match` / `case` used as a *name* and has a
+        # top-level ':' later on (annotated assignment, also after ';') is rejected -> excluded by construction
+        first = next((t for t in ts if t.k != 'M'), None)
+        if first is not None and first.k == 'n' and first.s in ('match', 'case'):
+            d = 0
+            for t in ts:
+                if t.k == '(':
+                    d += 1
+                elif t.k == ')':
+                    d -= 1
+                elif d == 0 and t.k == ':' and self.excluded('C01-F2'):
+                    first.s = 'matches'
+                    break
         return ts
 
     def stmt(self, depth):
@@ -640,8 +657,6 @@ class PyGen:
                 tgt = [self.name(soft_ok=True)]
             else:
                 tgt = self.single_target()
-                if tgt[0].s in SOFT and len(tgt) > 1 and self.excluded('C01-F2'):
-                    tgt[0] = T('x', 'n')
             ts = tgt + [tk(':')] + self.test()
             if cs.bool():
                 ts += [tk('=')] + self.assign_rhs()
@@ -717,7 +732,7 @@ class PyGen:
             if cs.bool(200):
                 ts += self.star_exprs()
             return ts
-        if k == 19 and self.py312 and not (after_semi and self.excluded('C01-F3')):
+        if k == 19 and self.py312 and not ((after_semi or getattr(self, '_in_one_line_suite', False)) and self.excluded('C01-F3')):
             self.feat('type_alias')
             ts = [tk('type'), self.name(soft_ok=True)]
             if cs.bool(100):
